@@ -5,7 +5,7 @@ Local Open Scope string_scope.
 Import ListNotations.
 From Snaps Require Import Base.Bytes Base.Assoc.
 From Snaps Require Import Model.Frame Model.PathModel Model.Mode Model.Api Model.Natural Model.Clean Model.RunFilter.
-From Snaps Require Import Proofs.FrameP Proofs.CleanP Proofs.CleanEntriesP Proofs.TestIdP Proofs.RunFilterP.
+From Snaps Require Import Proofs.FrameP Proofs.CleanP Proofs.CleanEntriesP Proofs.TestIdP Proofs.RunFilterP Proofs.CleanFilesP.
 
 (* COMPLETE AND EXACT REPORT. For a well-formed addressed file with distinct recognised ids, in every
    mode: the entries reported obsolete are exactly those that are neither registered (addressed in this
@@ -94,3 +94,100 @@ Proof.
   split; [|split; vm_compute; reflexivity].
   repeat constructor; try (vm_compute; reflexivity); try (vm_compute; intuition discriminate).
 Qed.
+
+(* ---------- the FILE level of a whole Clean run ---------- *)
+
+(* COMPLETE AND EXACT FILE REPORT: a path is reported obsolete exactly when it is dir/name for a visited directory dir
+   (the directory of some addressed multi-entry file or registered standalone file), name is a DIRECT child file of dir
+   whose name contains ".snap", and the path is neither an addressed file nor a registered standalone file *)
+Theorem C09_file_report_exact : forall fs cleanup standalone p,
+  let paths := registry_paths cleanup in
+  let dirs := dedup (map dirname paths ++ map dirname standalone) in
+  In p (fr_obsolete (examine_files fs cleanup standalone)) <->
+  exists dir name, In dir dirs /\ In name (readdir_files fs dir) /\ contains snaps_ext name = true /\
+                   p = join2 dir name /\ mem_bytes p paths = false /\ mem_bytes p standalone = false.
+Proof. exact examine_files_obsolete_iff. Qed.
+Print Assumptions C09_file_report_exact.
+
+(* ... in terms of the file system: every unaddressed file with .snap in its name directly inside a visited directory IS
+   reported (completeness), *)
+Theorem C09_unaddressed_file_reported : forall s count dir p c name,
+  In (p, c) (s_fs s) -> In dir (run_dirs s count) -> dir <> [dot] ->
+  file_name_in dir p = Some name -> contains snaps_ext name = true ->
+  ~ In p (registry_paths (s_cleanup s)) -> ~ In p (registered_standalone (s_scleanup s) count) ->
+  In p (fr_obsolete (run_files s count)).
+Proof. exact run_unaddressed_file_reported. Qed.
+Print Assumptions C09_unaddressed_file_reported.
+
+(* the directory listing holds exactly the direct children that are files *)
+Theorem C09_listing : forall fs dir n,
+  In n (readdir_files fs dir) <-> exists p c, In (p, c) fs /\ file_name_in dir p = Some n.
+Proof. exact readdir_files_in. Qed.
+Print Assumptions C09_listing.
+
+(* REMOVAL: off CI with UPDATE_SNAPS true/clean every reported file is gone afterwards; in every other mode no path
+   disappears or appears and only addressed files can change at all (sorting) *)
+Theorem C09_reported_files_removed : forall s sort_opt count,
+  NoDup (map fst (s_fs s)) -> forall p,
+  clean_deletes (s_env s) = true ->
+  In p (cr_obsolete_files (snd (clean_run s sort_opt count))) ->
+  alookup p (s_fs (fst (clean_run s sort_opt count))) = None.
+Proof. exact clean_run_deletes_reported. Qed.
+Theorem C09_report_only_keeps_paths : forall s sort_opt count p,
+  clean_deletes (s_env s) = false ->
+  alookup p (s_fs (fst (clean_run s sort_opt count))) = None <-> alookup p (s_fs s) = None.
+Proof. exact clean_run_report_only_keeps_paths. Qed.
+Theorem C09_report_only_changes_only_addressed : forall s sort_opt count p,
+  clean_deletes (s_env s) = false ->
+  alookup p (s_fs (fst (clean_run s sort_opt count))) <> alookup p (s_fs s) ->
+  In p (fr_used (run_files s count)).
+Proof. exact clean_run_report_only_changes. Qed.
+Print Assumptions C09_reported_files_removed.
+Print Assumptions C09_report_only_keeps_paths.
+Print Assumptions C09_report_only_changes_only_addressed.
+
+(* an addressed file ends up with exactly what the per-file examination returned for its ORIGINAL contents (to which the
+   entry-level theorems above apply), and the entry report of the run is the concatenation of the per-file reports *)
+Theorem C09_addressed_file_result : forall s sort_opt count,
+  NoDup (map fst (s_fs s)) -> forall p,
+  In p (fr_used (run_files s count)) ->
+  alookup p (s_fs (fst (clean_run s sort_opt count))) =
+  option_map (newc (run_exam s sort_opt count) p) (alookup p (s_fs s)).
+Proof. exact clean_run_used_content. Qed.
+Theorem C09_run_entry_report : forall s sort_opt count,
+  NoDup (map fst (s_fs s)) ->
+  cr_obsolete_tests (snd (clean_run s sort_opt count)) =
+  flat_map (fun p => match alookup p (s_fs s) with
+                     | Some f => fst (run_exam s sort_opt count p f)
+                     | None => []
+                     end) (fr_used (run_files s count)).
+Proof. exact clean_run_obsolete_tests. Qed.
+Print Assumptions C09_addressed_file_result.
+Print Assumptions C09_run_entry_report.
+
+(* TOUCHES NOTHING ELSE, in every mode: same content, not reported, no write of any kind - for files without .snap in their
+   name, for files in directories no test addressed, and for files in sub-directories of visited directories *)
+Theorem C09_untouched_no_snap_in_name : forall s sort_opt count p,
+  contains snaps_ext (base_part p) = false -> untouched s sort_opt count p.
+Proof. exact untouched_no_snap_in_name. Qed.
+Theorem C09_untouched_unvisited_dir : forall s sort_opt count p,
+  ~ In (dirname p) (run_dirs s count) -> untouched s sort_opt count p.
+Proof. exact untouched_unvisited_dir. Qed.
+Theorem C09_untouched_subdir : forall s sort_opt count dir sub x,
+  In dir (run_dirs s count) ->
+  ~ In (dirname (dir_pre dir ++ sub ++ slash :: x)%list) (run_dirs s count) ->
+  untouched s sort_opt count (dir_pre dir ++ sub ++ slash :: x)%list.
+Proof. exact untouched_subdir. Qed.
+Theorem C09_creates_nothing : forall s sort_opt count p,
+  alookup p (s_fs s) = None -> alookup p (s_fs (fst (clean_run s sort_opt count))) = None.
+Proof. exact clean_run_creates_nothing. Qed.
+Print Assumptions C09_untouched_no_snap_in_name.
+Print Assumptions C09_untouched_unvisited_dir.
+Print Assumptions C09_untouched_subdir.
+Print Assumptions C09_creates_nothing.
+
+(* the hypothesis "file-system keys are unique" holds in every reachable state *)
+Theorem C09_reachable_keys_unique : forall e caller dir ops,
+  NoDup (map fst (s_fs (fst (run (init_state e caller dir) ops)))).
+Proof. exact reachable_keys_nodup. Qed.
+Print Assumptions C09_reachable_keys_unique.
